@@ -51,6 +51,13 @@ type errKind struct {
 	strict bool
 }
 
+// errTemporary is what a network stack returns for a condition that may clear.
+type errTemporary struct{}
+
+func (errTemporary) Error() string   { return "simio: resource temporarily unavailable" }
+func (errTemporary) Temporary() bool { return true }
+func (errTemporary) Timeout() bool   { return false }
+
 var readKinds = []errKind{
 	{"opaque", errOpaque, true},
 	{"closed-pipe", io.ErrClosedPipe, true},
@@ -163,8 +170,8 @@ func enumerateReader(t *rapid.T, r *core.SplitMix, surface string, doc []byte, i
 	n := len(doc)
 	sampled := false
 	for pos := 0; pos <= n; pos++ {
-		for shapeIx, withData := range []bool{false, true, false} {
-			once := shapeIx == 2
+		for shapeIx, withData := range []bool{false, true, false, true} {
+			once := shapeIx >= 2
 			if withData && pos == 0 {
 				continue
 			}
@@ -173,9 +180,13 @@ func enumerateReader(t *rapid.T, r *core.SplitMix, surface string, doc []byte, i
 				shape = "data-and-error"
 			}
 			if once {
-				shape = "transient-zero-bytes-and-error"
+				shape = "transient-" + shape
 			}
 			kinds := []errKind{readKinds[r.Intn(3)], readKinds[3], readKinds[4]}
+			if once {
+				// a failure that is over at the next call: also as an error that says so
+				kinds = []errKind{readKinds[r.Intn(3)], {"temporary", errTemporary{}, true}}
+			}
 			for _, k := range kinds {
 				plan := randomPlan(r, n)
 				plan.Fault = &simio.ReadFault{At: pos, WithData: withData, Kind: k.name, Err: k.err, Once: once}
